@@ -88,6 +88,9 @@ def fracs(seed):
     for u in small + [-x for x in small if x]:
         for d in [1, 2, 3, 4, 6, 0xFFFFFFFF, B, 6 * B]:
             out.append(Fraction(u, d))
+    for u in (3, -5, 1):
+        for d in (B + 1, 7 * B * B + 1, 2 * B + 1):
+            out.append(Fraction(u, d))
     for _ in range(8):
         out.append(Fraction(rnd.getrandbits(70) - (1 << 69), rnd.getrandbits(40) + 1))
     seen = []
@@ -139,14 +142,19 @@ def tree_tokens(t):
     return [t[0]] + tree_tokens(t[1]) + tree_tokens(t[2])
 
 
+class EncErr(Exception):
+    pass
+
+
 def machine_run(cmds, stacks, max_steps, stdin=""):
-    """Reference interpreter (language definition) for programs that touch no I/O stack.
-    cmds: list of (type, h, d, tree); stacks: dict idx -> list of Fraction|None. Returns the replay driver's text."""
+    """Reference interpreter (language definition): six commands, areas, labels, stdin refill of stack 0 and output
+    on stacks 1/2 (no command may pop stack 1/2). Returns the replay driver's text."""
     st = {k: list(v) for k, v in stacks.items()}
     cur, loc, steps = 3, 0, 0
     points, latest = {}, None
     lines = stdin.split("\n")
     lines.reverse()
+    outs = {1: bytearray(), 2: bytearray()}
 
     def pop(i):
         s_ = st.setdefault(i, [])
@@ -157,6 +165,15 @@ def machine_run(cmds, stacks, max_steps, stdin=""):
         return s_.pop() if s_ else None
 
     def push(i, v):
+        if i in (1, 2):
+            if v is not None and v >= 0:
+                code = (v.numerator // v.denominator) % (1 << 32)
+                if code > 0x10FFFF or 0xD800 <= code <= 0xDFFF:
+                    raise EncErr()
+                outs[i] += chr(code).encode("utf-8")
+            else:
+                outs[i] += show_num(None if v is None else -v).encode("utf-8")
+            return
         s_ = st.setdefault(i, [])
         if s_ or v is not None:
             s_.append(v)
@@ -167,35 +184,40 @@ def machine_run(cmds, stacks, max_steps, stdin=""):
     def mul(a, b):
         return None if a is None or b is None else a * b
 
+    failed = False
     while loc < len(cmds) and steps < max_steps:
         ty, h, d, tree = cmds[loc]
         c = cur
-        if ty == 0:
-            push(c, Fraction(h * d))
-        elif ty == 1 or ty == 2:
-            n = Fraction(0) if ty == 1 else Fraction(1)
-            for _ in range(h):
-                n = add(n, pop(c)) if ty == 1 else mul(n, pop(c))
-            push(d, n)
-        elif ty == 3 or ty == 4:
-            n = Fraction(0) if ty == 3 else Fraction(1)
-            vs = [pop(c) for _ in range(h)]
-            vs.reverse()
-            for x in vs:
-                if ty == 3:
-                    x = None if x is None else -x
-                    n = add(n, x)
-                else:
-                    x = None if (x is None or x == 0) else 1 / x
-                    n = mul(n, x)
-                push(c, x)
-            push(d, n)
-        else:
-            n = pop(c)
-            for _ in range(h):
+        try:
+            if ty == 0:
+                push(c, Fraction(h * d))
+            elif ty == 1 or ty == 2:
+                n = Fraction(0) if ty == 1 else Fraction(1)
+                for _ in range(h):
+                    n = add(n, pop(c)) if ty == 1 else mul(n, pop(c))
                 push(d, n)
-            push(c, n)
-            cur = d
+            elif ty == 3 or ty == 4:
+                n = Fraction(0) if ty == 3 else Fraction(1)
+                vs = [pop(c) for _ in range(h)]
+                vs.reverse()
+                for x in vs:
+                    if ty == 3:
+                        x = None if x is None else -x
+                        n = add(n, x)
+                    else:
+                        x = None if (x is None or x == 0) else 1 / x
+                        n = mul(n, x)
+                    push(c, x)
+                push(d, n)
+            else:
+                n = pop(c)
+                for _ in range(h):
+                    push(d, n)
+                push(c, n)
+                cur = d
+        except EncErr:
+            failed = True
+            break
         count = h * d
         t = tree
         while True:
@@ -222,12 +244,13 @@ def machine_run(cmds, stacks, max_steps, stdin=""):
                 nxt = latest
         loc = nxt
         steps += 1
-    out = "loc=%d cur=%d" % (loc, cur)
+    out = "ERROR at loc=%d" % loc if failed else "loc=%d cur=%d" % (loc, cur)
     for i in sorted(st):
-        if st[i]:
+        if st[i] and not failed:
             if any(v is not None and (abs(v.numerator) >> 512 or v.denominator >> 512) for v in st[i]):
                 return None     # astronomically large values: skipped (slow to replay, nothing new)
             out += " |%d=" % i + " ".join(show_num(v) for v in st[i])
+    out += " out=%s err=%s" % (outs[1].hex(), outs[2].hex())
     return out
 
 
@@ -271,26 +294,42 @@ def cases_for(op, seed):
     if op == "exec.steps":
         rnd = random.Random(seed + 7)
         H2, H3, H13, N = ("H", 2), ("H", 3), ("H", 13), ("N",)
-        trees = [N, N, N, H2, H3, H13, ("Q", H2, N), ("E", H3, H2), ("Q", N, ("E", H2, N)), ("E", ("Q", H13, H3), N)]
-        vals = [Fraction(0), Fraction(1), Fraction(2), Fraction(-3), Fraction(1, 2), Fraction(-5, 3), Fraction(6), None]
-        for it in range(600):
-            use_stdin = it >= 400
-            n = rnd.randint(1, 6)
+        trees = [N, N, H2, H3, H2, H13, H13, ("Q", H2, N), ("E", H3, H2), ("Q", N, ("E", H2, N)), ("E", ("Q", H13, H3), N), ("Q", H13, H2)]
+        vals = [Fraction(0), Fraction(1), Fraction(2), Fraction(-3), Fraction(1, 2), Fraction(-5, 3), Fraction(6), Fraction(65), Fraction(0x1F496),
+                Fraction(0xD800), Fraction(0x110000), None]
+        for it in range(5500):
+            use_stdin = 1100 <= it < 1500
+            loopy = it >= 1500
+            n = rnd.randint(4, 11) if loopy else rnd.randint(1, 6)
             cmds = []
             for _ in range(n):
                 ty = rnd.randint(0, 5)
                 h = rnd.randint(1, 3)
-                d = rnd.randint(0, 4) if ty == 0 else (rnd.choice([0, 0, 3, 4]) if use_stdin else rnd.randint(3, 5))
-                cmds.append((ty, h, d, rnd.choice(trees)))
+                if ty == 0:
+                    d = rnd.randint(0, 4)
+                elif ty == 5:
+                    d = rnd.choice([0, 0, 3, 4]) if use_stdin else rnd.randint(3, 5)
+                else:
+                    d = rnd.choice([0, 1, 2, 3, 4]) if use_stdin else rnd.choice([1, 2, 3, 3, 4, 5])
+                tr = rnd.choice(trees)
+                if loopy:
+                    # labels collide when syllables*dots and the heart agree: keep the count at 3 or 4 and favour
+                    # hearts, conditional hearts and the return heart
+                    if ty == 0:
+                        h, d = rnd.choice([(1, 3), (3, 1), (1, 4), (2, 2), (4, 1)])
+                    else:
+                        h, d = rnd.choice([(1, 3), (1, 4)])
+                    tr = rnd.choice([N, H2, H2, H3, H13, H13, ("Q", H2, N), ("Q", N, H2), ("E", H13, N), ("Q", H13, H2), ("E", N, H2), ("Q", H3, H2), ("E", H2, H3)])
+                cmds.append((ty, h, d, tr))
             idxs = (0, 3, 4) if use_stdin else (3, 4, 5)
             stacks = {i: [rnd.choice(vals[:-1])] + [rnd.choice(vals) for _ in range(rnd.randint(0, 3))] for i in idxs if rnd.random() < 0.7}
             stdin = rnd.choice(["", "A", "AB\\nC", "x\\n\\nyz"]) if use_stdin else ""
-            exp = machine_run(cmds, stacks, 12, stdin.replace("\\n", "\n"))
+            exp = machine_run(cmds, stacks, 40 if loopy else 12, stdin.replace("\\n", "\n"))
             if exp is None:
                 continue
             prog = ";".join("%d,%d,%d,%s" % (ty, h, d, " ".join(tree_tokens(t))) for ty, h, d, t in cmds)
             init = "|".join("%d=%s" % (i, " ".join(enc_num(v) for v in vs_)) for i, vs_ in stacks.items())
-            yield ("exec.steps\t%s\t%s\t12\t%s" % (prog, init, stdin), exp,
+            yield ("exec.steps\t%s\t%s\t%d\t%s" % (prog, init, 40 if loopy else 12, stdin), exp,
                    {"op": "execute_one x<=12", "commands(type,syllables,dots,area)": prog, "stdin": stdin,
                     "initial stacks": {str(i): [show_num(v) for v in vs_] for i, vs_ in stacks.items()}})
         return
